@@ -641,13 +641,25 @@ impl Prop for C01 {
     fn id(&self) -> &'static str {
         "C01"
     }
+    fn engine(&self) -> &'static str {
+        "asim + tsim (shuttle)"
+    }
     fn gen(&self, rng: &mut Rng, _t: Tier) -> Value {
+        if rng.chance(1, 12) {
+            return serde_json::to_value(super::svcthreads::gen_bulkhead(rng)).unwrap();
+        }
         serde_json::to_value(gen(rng)).unwrap()
     }
     fn valid(&self, v: &Value) -> bool {
+        if super::svcthreads::is_threads(v) {
+            return super::svcthreads::valid_json(v) && matches!(parse::<super::svcthreads::ScnT>(v).map(|s| s.kind), Some(super::svcthreads::Kind::Bulkhead { .. }));
+        }
         parse::<Scn>(v).map(|s| valid(&s)).unwrap_or(false)
     }
     fn run(&self, v: &Value, ctx: &mut RunCtx) -> RunOutput {
+        if super::svcthreads::is_threads(v) {
+            return super::svcthreads::run_json(v, ctx, "C01");
+        }
         run(&parse::<Scn>(v).unwrap(), ctx, "C01")
     }
     fn runs(&self, t: Tier) -> u64 {
@@ -674,13 +686,25 @@ impl Prop for C07 {
     fn id(&self) -> &'static str {
         "C07"
     }
+    fn engine(&self) -> &'static str {
+        "asim + tsim (shuttle)"
+    }
     fn gen(&self, rng: &mut Rng, _t: Tier) -> Value {
+        if rng.chance(1, 12) {
+            return serde_json::to_value(super::svcthreads::gen_bulkhead(rng)).unwrap();
+        }
         serde_json::to_value(gen(rng)).unwrap()
     }
     fn valid(&self, v: &Value) -> bool {
+        if super::svcthreads::is_threads(v) {
+            return super::svcthreads::valid_json(v) && matches!(parse::<super::svcthreads::ScnT>(v).map(|s| s.kind), Some(super::svcthreads::Kind::Bulkhead { .. }));
+        }
         parse::<Scn>(v).map(|s| valid(&s)).unwrap_or(false)
     }
     fn run(&self, v: &Value, ctx: &mut RunCtx) -> RunOutput {
+        if super::svcthreads::is_threads(v) {
+            return super::svcthreads::run_json(v, ctx, "C07");
+        }
         run(&parse::<Scn>(v).unwrap(), ctx, "C07")
     }
     fn runs(&self, t: Tier) -> u64 {
